@@ -5,9 +5,8 @@ commands `fail`, `succeed`, `pause`, `noop` (reserved task names of the workflow
 mistral/workflow/commands.py: FailWorkflow / SucceedWorkflow / PauseWorkflow / Noop).  Modelled:
   dispatcher._rearrange_commands   noops removed; the commands after the first state command are
                                    dropped (fail / succeed) or kept as the tail to be saved (pause);
-                                   the SORT of the task commands before the state command is not
-                                   modelled: executions are identified by (name, occurrence) and rows /
-                                   deliveries are compared as multisets, so their order is unobservable
+                                   the task commands before it are sorted as `list.sort` does with
+                                   the (non-total) comparator `_compare_task_commands`
   dispatcher._process_commands     per command: completed workflow → break; PAUSED → saved to the
                                    backlog (`runtime_context['backlog_commands']`); RunTask → create
                                    (joins through `defer`) + register start; SetWorkflowState →
@@ -38,18 +37,69 @@ def cmdKind (n : String) : CmdKind :=
 
 def isCmdName (n : String) : Bool := cmdKind n != .task
 
-/-- `_rearrange_commands` after the removal of the noops -/
-def rearrangeAux : List Cmd → List Cmd
+/-! ### `_rearrange_commands`
+
+The task commands before the first state command are SORTED with `_compare_task_commands` through
+`list.sort(key=cmp_to_key(…))`.  The comparator is not a total order (a command that is not a waiting
+RunTask is "less" than everything), so the result is whatever CPython's sort does with it: for fewer than 64
+elements one natural run (reversed if strictly descending) followed by binary insertion of the rest
+(Objects/listobject.c: count_run / binarysort).  Modelled as such, because the ORDER IN WHICH TASK
+EXECUTIONS ARE CREATED is observable: `continue_workflow()` on resume lists the unprocessed tasks in that
+order, and a fail / succeed command among their commands cuts off what comes after it. -/
+
+/-- `ISLT(a, b)` = `_compare_task_commands(a, b) < 0`; `waiting c` = c is a RunTask with the wait flag (a join) -/
+def cmdLT (waiting : Cmd → Bool) (a b : Cmd) : Bool :=
+  !waiting a || (waiting b && decide (a.target < b.target))
+
+/-- binary insertion of `pivot` into the sorted prefix (binarysort) -/
+def insertBin (lt : Cmd → Cmd → Bool) (sorted : List Cmd) (pivot : Cmd) : List Cmd :=
+  let rec go (fuel l r : Nat) : Nat :=
+    match fuel with
+    | 0 => l
+    | fuel + 1 =>
+      if l < r then
+        let p := l + (r - l) / 2
+        match sorted[p]? with
+        | some x => if lt pivot x then go fuel l p else go fuel (p + 1) r
+        | none => l
+      else l
+  let k := go (sorted.length + 1) 0 sorted.length
+  sorted.take k ++ pivot :: sorted.drop k
+
+/-- length of the initial run (count_run) -/
+def runLen (lt : Cmd → Cmd → Bool) (desc : Bool) : Cmd → List Cmd → Nat → Nat
+  | _, [], n => n
+  | prev, y :: ys, n => if lt y prev == desc then runLen lt desc y ys (n + 1) else n
+
+/-- `list.sort` for lists shorter than 64 elements -/
+def pySort (lt : Cmd → Cmd → Bool) (l : List Cmd) : List Cmd :=
+  match l with
   | [] => []
+  | [x] => [x]
+  | x0 :: x1 :: rest =>
+    let desc := lt x1 x0
+    let n := runLen lt desc x1 rest 2
+    let run := l.take n
+    (l.drop n).foldl (insertBin lt) (if desc then run.reverse else run)
+
+/-- split at the first state command (pause / fail / succeed) -/
+def splitState : List Cmd → List Cmd × Option Cmd × List Cmd
+  | [] => ([], none, [])
   | c :: cs =>
     match cmdKind c.target with
-    | .pause => c :: cs            -- pause, and the tail that will be saved to the backlog
-    | .fail => [c]                 -- the commands after fail / succeed are dropped
-    | .succeed => [c]
-    | _ => c :: rearrangeAux cs
+    | .pause => ([], some c, cs)
+    | .fail => ([], some c, cs)
+    | .succeed => ([], some c, cs)
+    | _ => let (p, s, t) := splitState cs; (c :: p, s, t)
 
-def rearrange (cmds : List Cmd) : List Cmd :=
-  rearrangeAux (cmds.filter fun c => cmdKind c.target != .noop)
+/-- `_rearrange_commands`: noops removed; the task commands before the first state command sorted; the
+    commands after `fail` / `succeed` dropped; after `pause` kept (they will be saved to the backlog) -/
+def rearrange (waiting : Cmd → Bool) (cmds : List Cmd) : List Cmd :=
+  let cs := cmds.filter fun c => cmdKind c.target != .noop
+  match splitState cs with
+  | (pre, none, _) => pySort (cmdLT waiting) pre
+  | (pre, some c, tail) =>
+    pySort (cmdLT waiting) pre ++ c :: (if cmdKind c.target == .pause then tail else [])
 
 /-- the execution a lookup by UNIQUE KEY finds (`Task.defer`, `_is_consumed_join_trigger`): rows created
     from restored commands have no unique key -/
@@ -89,11 +139,15 @@ def dispatchOneX (sp : Spec) (restored : Bool) (w : World) (c : Cmd) : World :=
     | .pause => { w with wf := (Lifecycle.wfApply w.wf .pause).1 }
     | .fail => { w with wf := (Lifecycle.wfApply w.wf (.stop .ERROR)).1 }
     | .succeed => { w with wf := (Lifecycle.wfApply w.wf (.stop .SUCCESS)).1 }
-    | .task => if restored then dispatchPlain w c else dispatchTask sp w c
+    | .task =>
+      if restored then dispatchPlain w c
+      else match c.existing with
+        | some t => { w with pending := w.pending ++ [.postStartTask t false] }   -- RunExistingTask
+        | none => dispatchTask sp w c
 
 /-- `_process_commands` -/
 def processX (sp : Spec) (restored : Bool) (w : World) (cmds : List Cmd) : World :=
-  (rearrange cmds).foldl (dispatchOneX sp restored) w
+  (rearrange (fun c => !restored && c.existing.isNone && (isJoin sp c.target).isSome) cmds).foldl (dispatchOneX sp restored) w
 
 /-- `dispatch_workflow_commands`: the backlog first (it is popped), then the new commands -/
 def dispatchX (sp : Spec) (w : World) (cmds : List Cmd) : World :=
@@ -140,12 +194,9 @@ def stepX (sp : Spec) (w : World) : Event → World
                   if isCompleted t.state && !t.processed then { t with processed := true } else t }
     if idle.isEmpty && cmds.isEmpty && w2.backlog.isEmpty then checkAndComplete w2
     else
-      -- the backlog first; then the RunExistingTask commands of the IDLE tasks (they go through
-      -- `_process_commands` too: nothing in a completed workflow), then the next commands
-      let w3 := processX sp true { w2 with backlog := [] } w2.backlog
-      let w4 := if isPausedOrCompleted w3.wf then w3
-                else { w3 with pending := w3.pending ++ idle.map fun n => .postStartTask n false }
-      processX sp false w4 cmds
+      -- `dispatch_workflow_commands`: the backlog first, then ONE command list: the RunExistingTask
+      -- commands of the IDLE tasks followed by the next commands
+      dispatchX sp w2 (idle.map (fun t => ({ target := t.1, src := none, existing := some t } : Cmd)) ++ cmds)
   | .execute t ok =>
     if !w.pending.contains (.runAction t) then w else
     { w with pending := removeFirst w.pending (.runAction t) ++ [.rpcResult t ok] }
